@@ -97,11 +97,11 @@ var (
 
 // c14reach collects address -> [type, path without indices] of every mutable node reachable
 // from v: pointers to non-empty structs, and every element slot (up to cap) of every slice.
-func c14reach(v reflect.Value, path string, out map[uintptr][2]string) {
+func c14reach(v reflect.Value, path string, out map[uintptr][2]string, al map[uintptr][2]string) {
 	switch v.Kind() {
 	case reflect.Interface:
 		if !v.IsNil() {
-			c14reach(v.Elem(), path, out)
+			c14reach(v.Elem(), path, out, al)
 		}
 	case reflect.Ptr:
 		if v.IsNil() || v.Type() == c14regexpT || v.Type() == c14locT {
@@ -111,12 +111,15 @@ func c14reach(v reflect.Value, path string, out map[uintptr][2]string) {
 		if e.Kind() == reflect.Struct {
 			if e.Type().Size() > 0 {
 				a := v.Pointer()
-				if _, seen := out[a]; seen {
+				if d, seen := out[a]; seen {
+					if al != nil && d[1] != path {
+						al[a] = [2]string{"*" + e.Type().Name(), path}
+					}
 					return
 				}
 				out[a] = [2]string{"*" + e.Type().Name(), path}
 			}
-			c14reach(e, path, out)
+			c14reach(e, path, out, al)
 		}
 	case reflect.Struct:
 		if v.Type() == timeT {
@@ -128,7 +131,7 @@ func c14reach(v reflect.Value, path string, out map[uintptr][2]string) {
 			if path != "" {
 				p = path + "." + f.Name
 			}
-			c14reach(v.Field(i), p, out)
+			c14reach(v.Field(i), p, out, al)
 		}
 	case reflect.Slice:
 		if v.IsNil() || v.Cap() == 0 {
@@ -143,17 +146,31 @@ func c14reach(v reflect.Value, path string, out map[uintptr][2]string) {
 			}
 		}
 		for i := 0; i < v.Len(); i++ {
-			c14reach(v.Index(i), path, out)
+			c14reach(v.Index(i), path, out, al)
 		}
 	}
 }
 
-func c14shared(o, c *c14root) []interface{} {
+// (the last argument of c14reach, when set, collects the struct nodes a walk reaches a second time at ANOTHER path: a
+// tree that is a DAG)
+func c14shared(o, c *c14root, atClone bool) []interface{} {
 	mo, mc := map[uintptr][2]string{}, map[uintptr][2]string{}
-	c14reach(reflect.ValueOf(o.value()), "", mo)
-	c14reach(reflect.ValueOf(c.value()), "", mc)
+	ao, ac := map[uintptr][2]string{}, map[uintptr][2]string{}
+	c14reach(reflect.ValueOf(o.value()), "", mo, ao)
+	c14reach(reflect.ValueOf(c.value()), "", mc, ac)
 	seen := map[string]bool{}
 	var keys []string
+	// right after Clone: one node standing at two places of the copy where the original has two nodes - an edit of one
+	// place of the copy shows at the other (later in-place rewrites may reuse a node, that is their business)
+	if atClone && len(ac) > 0 && len(ao) == 0 {
+		for _, d := range ac {
+			k := d[0] + " twice in the copy@" + d[1]
+			if !seen[k] {
+				seen[k] = true
+				keys = append(keys, k)
+			}
+		}
+	}
 	for a, d := range mo {
 		if _, ok := mc[a]; ok {
 			k := d[0] + "@" + d[1]
@@ -758,7 +775,7 @@ func init() {
 				}
 				o["names"] = names
 				m := map[uintptr][2]string{}
-				c14reach(reflect.ValueOf(r.value()), "", m)
+				c14reach(reflect.ValueOf(r.value()), "", m, nil)
 				o["nodes"] = len(m)
 			}
 		}
@@ -792,7 +809,7 @@ func init() {
 		}
 		so, ho := c14snap(orig)
 		sc, hc := c14snap(clone)
-		st := M{"a": "clone", "side": "o", "op": "Clone", "so": so, "shared": c14shared(orig, clone), "eff": false}
+		st := M{"a": "clone", "side": "o", "op": "Clone", "so": so, "shared": c14shared(orig, clone, true), "eff": false}
 		if kind == "expr" {
 			st["op"] = "CloneExpr"
 		}
@@ -850,7 +867,7 @@ func init() {
 				own = own || side == "c"
 			}
 			rec["eff"] = own
-			rec["shared"] = c14shared(orig, clone)
+			rec["shared"] = c14shared(orig, clone, false)
 			steps = append(steps, rec)
 		}
 		o["steps"] = steps
